@@ -115,8 +115,11 @@ func (f *RequiredField) DoRead(r io.ReadSeeker, pg Page) (io.Reader, []int, erro
 	var nRead int
 	var out []byte
 	var sizes []int
-	for nRead < pg.N {
-		ph, err := PageHeader(r)
+	// the column chunk ends where its bytes end (as for optional
+	// fields): a chunk may close with a page that holds no values
+	for nRead < pg.Size {
+		rc := &readCounter{r: r}
+		ph, err := PageHeader(rc)
 		if err != nil {
 			return nil, nil, err
 		}
@@ -127,13 +130,13 @@ func (f *RequiredField) DoRead(r io.ReadSeeker, pg Page) (io.Reader, []int, erro
 
 		sizes = append(sizes, int(ph.DataPageHeader.NumValues))
 
-		data, err := pageData(r, ph, pg)
+		data, err := pageData(rc, ph, pg)
 		if err != nil {
 			return nil, nil, err
 		}
 
 		out = append(out, data...)
-		nRead += int(ph.DataPageHeader.NumValues)
+		nRead += int(rc.n)
 	}
 	return bytes.NewBuffer(out), sizes, nil
 }
